@@ -313,6 +313,7 @@ pub fn spec_c06() -> PropSpec {
         nt_rule: "",
         engine: "seq",
         runner: None,
+        decode: None,
     }
 }
 
@@ -343,5 +344,6 @@ pub fn spec_c07() -> PropSpec {
         nt_rule: "",
         engine: "seq",
         runner: None,
+        decode: None,
     }
 }
